@@ -343,6 +343,9 @@ func (c *Conn) WriteControl(messageType int, data []byte, deadline time.Time) er
 func (c *Conn) WriteMessage(messageType int, data []byte) error {
 	// gorilla's WriteMessage runs every frame type (also close and ping) through flushFrame, which panics on
 	// overlapping writers; only WriteControl (and the automatic pong / close replies) is safe concurrently
+	// the socket reads the caller's bytes now: a caller that reuses the slice for the next frame while this one is
+	// still queued or being written races with this read (seen by the access build's race detector)
+	simrt.RdElems(data, "websocket frame bytes handed to WriteMessage")
 	return c.writeFrame(Frame{Type: messageType, Data: append([]byte(nil), data...)}, false)
 }
 
